@@ -590,6 +590,34 @@ def ds_frame(rng, kind, seqno, npb=1, size_override=None):
     return struct.pack(">I12s4sQI", size, mtype, cmd, seqno, 0) + payload
 
 
+def ds_frame_exact(rng, seqno, total):
+    """A valid `sync` data stream frame of exactly `total` bytes (an extra plist key pads the payload)."""
+    from pyatv.protocols.mrp import protobuf
+    m = protobuf.ProtocolMessage()
+    m.type = protobuf.GENERIC_MESSAGE
+    m.identifier = "id-%d-%d" % (seqno, rng.randrange(1000))
+    sm = m.SerializeToString()
+    data = write_varint(len(sm)) + sm
+    for k in range(0, total):
+        payload = plistlib.dumps({"params": {"data": data}, "pad": b"p" * k}, fmt=plistlib.FMT_BINARY)
+        if 32 + len(payload) == total:
+            return struct.pack(">I12s4sQI", total, b"sync" + 8 * b"\0", b"comm", seqno, 0) + payload
+        if 32 + len(payload) > total:
+            break
+    raise ValueError("no data stream frame of %d bytes" % total)
+
+
+def http_exact(first, cseq, total):
+    """A valid HTTP message of exactly `total` bytes (the body pads it)."""
+    for n in range(0, total):
+        msg = http_message(first, [("CSeq", str(cseq))], b"b" * n)
+        if len(msg) == total:
+            return msg
+        if len(msg) > total:
+            break
+    raise ValueError("no message of %d bytes" % total)
+
+
 def layered_stream(rng, conn, plain_frames, block_sizes=None, valid=True, what="", extra=None):
     okey, ikey = keys(rng)
     case = {"conn": conn, "enc": True, "okey": okey, "ikey": ikey}
@@ -648,7 +676,7 @@ def with_consumer(case, idxs):
 
 def seg_plan(ctx, rng, n, bounds, coq):
     """Which segmentations of an n-byte stream are run: (explicit cut lists, all1?, all2?, bytewise?)."""
-    lim1 = 2600 if coq else 0
+    lim1 = (2600 if ctx.thorough else 1300) if coq else 0
     lim2 = (230 if ctx.thorough else 70) if coq else 0
     explicit = []
     nr = 12 if not ctx.thorough else 60
@@ -902,6 +930,12 @@ def gen_cases(ctx):
     cases.append(ds_case(["sync", "rply", "noparams"], blocks=[5, 27, 1, 1024]))
     cases.append(ds_case(["rply", "rply", "sync"], blocks=[31, 2, 31, 1024]))
     cases.append(ds_case(["sync", "sync"], blocks=[33, 64, 1024]))
+    # decrypted data that ends exactly on a multiple of the 1024-byte HAP frame size (single messages
+    # of 1024 / 2048 bytes, several messages adding up to it) as the LAST data of the stream
+    for sizes, blocks in [([1024], None), ([500, 524], "per-frame"), ([992, 32, 1024], None)] + (
+            [([2048], None), ([500, 524], None), ([1000, 1048], "per-frame")] if T else []):
+        frames = [ds_frame(rng, "rply", 300 + i) if n == 32 else ds_frame_exact(rng, 300 + i, n) for i, n in enumerate(sizes)]
+        cases.append(ds_case(frames, blocks=blocks, what="frames of %s bytes (total a multiple of 1024) blocks %s" % (sizes, blocks or "1024-split")))
     cases.append(with_consumer(ds_case(["sync", "sync", "sync"], blocks="per-frame"), [0]))
     cases.append(with_consumer(ds_case(["sync", "rply", "sync", "sync"], blocks="per-frame"), [1, 2]))
     cases.append(ds_case(["sync", "list", "sync"], valid=False, what="second frame's payload is a plist list: handler raises"))
@@ -960,6 +994,11 @@ def gen_cases(ctx):
     cases.append(http_case("event", "req", [1, 2]))
     cases.append(http_case("event", "req", [3, 0, 4], blocks=[7, 9, 100, 1024]))
     cases.append(http_case("event", "req", [6, 7, 8], blocks=[64, 64, 64, 1024]))
+    for sizes, blocks in [([1024], None), ([500, 524], [500, 524]), ([1000, 60, 988], None)] + (
+            [([2048], None), ([500, 524], None), ([1000, 1048], [1000, 1048])] if T else []):
+        raw = [http_exact("POST /command RTSP/1.0", i, n) for i, n in enumerate(sizes)]
+        cases.append(http_case("event", "req", [], blocks=blocks, raw=raw,
+                               what="requests of %s bytes (total a multiple of 1024) blocks %s" % (sizes, blocks or "1024-split")))
     # outside valid streams: correspondence only
     ok = http_message("HTTP/1.1 200 OK", [("CSeq", "1")], b"zz")
     okr = http_message("GET / HTTP/1.1", [("CSeq", "1")], b"zz")
